@@ -1,5 +1,6 @@
 import DK.Driver.Leaf
 import DK.Driver.Tree
+import DK.Driver.Loader
 /-! Line driver: one JSON operation per input line, one JSON answer per output line. -/
 namespace DK.Driver
 open Lean
@@ -15,6 +16,7 @@ def handle (line : String) : String :=
       else if op.startsWith "tree." then treeOp op j
       else if op.startsWith "fn." then fnOp op j
       else if op = "kern" then kernOp j
+      else if op.startsWith "loader." then loaderOp op j
       else throw s!"unknown op {op}" : Except String Json) with
     | .ok v => ok v
     | .error e => err e
